@@ -25,7 +25,7 @@ def run(ctx):
     # (goroutines, ms per configuration, GOMAXPROCS, source): "go" = a goroutine-safe source written in Go, so that writes into the
     # library's read buffers are visible to the race detector (the kernel's writes are not)
     configs = ([(4, 1200, None, "os"), (16, 1500, None, "go")] if quick else
-               [(4, 3000, None, "os"), (16, 6000, None, "go"), (64, 6000, None, "os"), (16, 4000, "2", "go"), (8, 4000, "16", "os"), (32, 4000, None, "go")])
+               [(4, 6000, None, "os"), (16, 12000, None, "go"), (64, 12000, None, "os"), (16, 8000, "2", "go"), (8, 8000, "16", "os"), (32, 8000, None, "go"), (128, 6000, None, "go")])
     races = ctx.path("races.ndjson")
     cfiles, wfiles = [], []
     nraces = 0
